@@ -48,7 +48,7 @@ type c16Obs struct {
 	Base    []string // workspace base directories (must not leak into the output)
 }
 
-const companionAAA = `//go:build wireinject
+var companionAAA = `//go:build wireinject
 
 package aaa
 
@@ -66,7 +66,28 @@ func InitA() *A {
 	wire.Build(NewA)
 	return nil
 }
-`
+
+func InitS() string {
+	wire.Build(wire.Value("s"))
+	return ""
+}
+
+func InitI() int {
+	wire.Build(wire.Value(1))
+	return 0
+}
+` + companionValues
+
+// companionValues declares value injectors whose generated variable names
+// (_wireT<k>Value) are the ones generated programs typically need too.
+var companionValues = func() string {
+	var b strings.Builder
+	for k := 0; k < 14; k++ {
+		fmt.Fprintf(&b, "\ntype T%d struct{ Z int }\n\nfunc InitT%d() T%d {\n\twire.Build(wire.Value(T%d{Z: %d}))\n\treturn T%d{}\n}\n", k, k, k, k, k, k)
+	}
+	return b.String()
+}()
+
 
 const companionZZZ = `//go:build wireinject
 
@@ -150,6 +171,8 @@ func c16Layout(s *Spec, files map[string]string, marker, base, layout string) (r
 			tree[filepath.Join(extDir, rel)] = v
 		} else {
 			tree[filepath.Join(modRoot, "progs", name, rel)] = v
+			// a second root package with the same sources: it shares every dependency set
+			tree[filepath.Join(modRoot, "progs", name+"twin", rel)] = v
 		}
 	}
 	for p, v := range tree {
@@ -204,6 +227,7 @@ func c16Eval(c *Ctx) func([]*Spec) []c16Obs {
 					{"with-aaa", root, []string{"gen", "./progs/aaa", "./progs/" + name}},
 					{"with-zzz-first", root, []string{"gen", "./progs/zzz", "./progs/" + name, "./progs/aaa"}},
 					{"all", root, []string{"gen", "./progs/..."}},
+					{"twin", root, []string{"gen", "./progs/" + name, "./progs/" + name + "twin"}},
 					{"rel-again", root, []string{"gen", "./progs/" + name}},
 					{"rel-third", root, []string{"gen", "./progs/" + name}},
 				}
@@ -227,6 +251,15 @@ func c16Eval(c *Ctx) func([]*Spec) []c16Obs {
 						continue
 					}
 					o.Outputs[label] = string(b)
+					if iv.label == "twin" {
+						tb, terr := os.ReadFile(filepath.Join(filepath.Dir(filepath.Dir(outPath)), name+"twin", "wire_gen.go"))
+						if terr != nil {
+							o.Errs = append(o.Errs, label+": the twin package got no output")
+						} else {
+							o.Outputs[label+"-second-package"] = string(tb)
+						}
+						os.Remove(filepath.Join(filepath.Dir(filepath.Dir(outPath)), name+"twin", "wire_gen.go"))
+					}
 				}
 			}
 		})
